@@ -76,6 +76,7 @@ OBS = 'reconstruction/observations.txt'
 FMT11 = '# kapture format: 1.1'
 DTYPES = ['float16', 'float32', 'float64', 'int8', 'int16', 'int32', 'int64', 'uint8', 'uint16', 'uint32', 'uint64',
           'float', 'int']
+EMPTY_DIR = ['B', '<empty directory>']      # how a listing shows a directory without entries (key = its path + '/')
 VERSION_RE = re.compile(r'# kapture format\:\s*(?P<version>\d+\.\d+)')
 
 
@@ -114,11 +115,13 @@ def _read(p):
         return f.read().decode('utf-8', errors='surrogateescape')
 
 
-def _folder_snapshot(d):
+def _folder_snapshot(d, empty_dirs=True):
     if not os.path.isdir(d) or os.path.islink(d):
         return None
     out = {}
     for dp, dns, fns in os.walk(d):
+        if empty_dirs and not dns and not fns and dp != d:      # an empty directory below the folder is part of the directory tree
+            out[os.path.relpath(dp, d).replace('\\', '/') + '/'] = list(EMPTY_DIR)
         for fn in fns:
             p = os.path.join(dp, fn)
             rel = os.path.relpath(p, d).replace('\\', '/')
@@ -130,7 +133,8 @@ def snapshot(root):
     """The directory as a tree: files outside the five special folders under 'top', each special folder apart."""
     tree = {'top': {}}
     for key, sub in FOLDERS.items():
-        tree[key] = _folder_snapshot(os.path.join(root, sub))
+        tree[key] = _folder_snapshot(os.path.join(root, sub), empty_dirs=key != 'rd')   # (record files: moved away by the
+        #                                                        copy route's `move`, never touched in place)
     specials = [os.path.join(root, s) for s in FOLDERS.values()]
     for dp, dns, fns in os.walk(root):
         dns[:] = [x for x in dns if os.path.join(dp, x) not in specials]
@@ -248,6 +252,7 @@ def view_of(root, scratch):
         for a, b in ms:
             v['mt'].append([kt, a, b, _read(kfeat.get_matches_fullpath((a, b), kt, root))])
     v['mt'].sort()
+    v['mt_types'] = sorted((kd.matches or {}).keys())
     if kd.observations is not None:
         for p, kt in sorted(kd.observations.key_pairs()):
             v['obs'].append([p, kt, [[i, k] for i, k in kd.observations[p, kt]]])
@@ -444,7 +449,8 @@ def oracle_session(case, obs):
         if o['view']['version'] != '1.1':
             return f'{who}: the installed dataset does not load as version 1.1'
         final = dict(map(tuple, obs['steps'][-1]['root']))[sub]
-        sig = _cmp_view(o['view'], exp, who, obs['baselines'].get(sub)) or _declares_11(final, who)
+        sig = _cmp_view(o['view'], exp, who, obs['baselines'].get(sub), final.get('mt')) or _declares_11(final, who) \
+            or _empty_dirs_left(t0, final, who, exp['kt'])
         if sig:
             return sig
         if final['rd'] != t0.get('rd'):
@@ -472,7 +478,7 @@ def encode_session(case, obs):
     steps = []
     for st, so in zip(case['session']['steps'], obs['steps']):
         step = '(Install %s %s)' % (kv.cstr(st['sub']), c_tree(st['tree'])) if st['op'] == 'install' else 'Again'
-        root = kv.clist(kv.cpair(kv.cstr(sub), c_tree(snap)) for sub, snap in so['root'])
+        root = kv.clist(kv.cpair(kv.cstr(sub), c_tree(_enc_tree(snap, trees[sub], DL_ARGS))) for sub, snap in so['root'])
         steps.append('(mkStepObs %s %s %s)' % (step, 'true' if so['raised'] else 'false', root))
     views = []
     for sub in trees:
@@ -549,6 +555,7 @@ def expected_content(case, strict):
         if not _plain(a['gm']):
             return None
         exp['gf'][names['gf']]['cfg'] += [a['gm']]
+    exp['kt'] = kt
     if tree.get('mt') is not None:
         if kt is None or not _plain(kt) or images is None:
             return None
@@ -582,7 +589,7 @@ def expected_content(case, strict):
     return exp
 
 
-def _cmp_view(view, exp, who, baseline=None):
+def _cmp_view(view, exp, who, baseline=None, mt_after=None):
     """None when the loaded dataset holds exactly the expected content.  Text tables: the rows the same loader read
     from the 1.0 directory (baseline) when it could, else the data rows of the 1.0 files."""
     def ms(rows):
@@ -606,8 +613,25 @@ def _cmp_view(view, exp, who, baseline=None):
                 return f'{who}: {label} data file bytes differ'
     if sorted(map(tuple, view['mt'])) != sorted(map(tuple, exp['mt'])):
         return f'{who}: matches differ after the upgrade'
+    extra = sorted(set(view.get('mt_types', [])) - {m[0] for m in exp['mt']} - {exp.get('kt')})
+    extra = [x for x in extra if not any(rel.startswith(x + '/') and not rel.endswith('/') for rel in (mt_after or {}))]
+    if extra:
+        return f'{who}: matches are loaded under keypoints types that the dataset does not have: {extra}'
     if view['obs'] != exp['obs']:
         return f'{who}: observations differ after the upgrade'
+    return None
+
+
+
+def _empty_dirs_left(before, after, who, kt=None):
+    """The complete directory tree of the feature folders: a directory without entries after the upgrade must have
+    been one before (the folder of the keypoints type under matches excepted: it is made before anything is moved)."""
+    for key in list(FOLDERS):
+        for rel in (after.get(key) or {}):
+            if key == 'mt' and kt is not None and rel == kt + '/':
+                continue
+            if rel.endswith('/') and rel not in (before.get(key) or {}):
+                return f'{who}: empty directory left behind: {FOLDERS.get(key, "")}/{rel}'.replace(': /', ': ')
     return None
 
 
@@ -638,7 +662,8 @@ def oracle(case, obs):
             return f'in-place route: the result does not load: {o["load_exc"]}'
         if o['view']['version'] != '1.1':
             return 'in-place route: the result does not load as version 1.1'
-        sig = _cmp_view(o['view'], exp_in, 'in-place route', obs.get('baseline_tables')) or _declares_11(o['tree'], 'in-place route')
+        sig = _cmp_view(o['view'], exp_in, 'in-place route', obs.get('baseline_tables'), o['tree'].get('mt')) or _declares_11(o['tree'], 'in-place route') \
+            or _empty_dirs_left(tree, o['tree'], 'in-place route', exp_in['kt'])
         if sig:
             return sig
         # frame: record files and files that are no part of the dataset are left alone
@@ -660,7 +685,8 @@ def oracle(case, obs):
             return f'{who}: the result does not load: {o["load_exc"]}'
         if o['view']['version'] != '1.1':
             return f'{who}: the result does not load as version 1.1'
-        sig = _cmp_view(o['view'], exp_cp, who, obs.get('baseline_tables')) or _declares_11(o['tree'], who)
+        sig = _cmp_view(o['view'], exp_cp, who, obs.get('baseline_tables'), o['tree'].get('mt')) or _declares_11(o['tree'], who) \
+            or _empty_dirs_left({}, o['tree'], who, exp_cp['kt'])
         if sig:
             return sig
         src_rd = tree.get('rd') or {}
@@ -680,7 +706,7 @@ def oracle(case, obs):
                 return f'{who}: unexpected record files'
         views.append((who, o['view']))
     for (w1, v1), (w2, v2) in zip(views, views[1:]):
-        if {k: v for k, v in v1.items()} != {k: v for k, v in v2.items()}:
+        if {k: v for k, v in v1.items() if k != 'mt_types'} != {k: v for k, v in v2.items() if k != 'mt_types'}:
             return f'the two routes disagree: {w1} versus {w2}'
     return None
 
@@ -746,6 +772,26 @@ def c_rd(rd):
     raise ValueError('records_data of the output mixes links and files')
 
 
+
+def _kt_guess(tree, a):
+    """The keypoints type the routes file the matches under (explicit, else the name in the 1.0 keypoints descriptor)."""
+    if a.get('kt') is not None:
+        return a['kt']
+    d = _desc(tree, 'kp')
+    return d[0] if d not in (None, 'bad') else None
+
+
+def _enc_tree(snap, tree0, a):
+    """The listing as the model sees it: the folder of the keypoints type under matches, made before anything is moved,
+    is no entry of the model when it stays empty (every other empty directory is one)."""
+    kt = _kt_guess(tree0, a)
+    if kt is None or not snap.get('mt') or (kt + '/') not in snap['mt']:
+        return snap
+    out = dict(snap)
+    out['mt'] = {k: v for k, v in snap['mt'].items() if k != kt + '/'}
+    return out
+
+
 def encode(case, obs):
     if 'session' in case:
         return encode_session(case, obs)
@@ -757,7 +803,8 @@ def encode(case, obs):
             _ST[k['strategy']], _OC[k['outcome']], c_tree(k['tree'] if done else _EMPTY), c_rd(k.get('rd')),
             c_ofolder(k['src_rd']), c_view(k.get('view'))))
     return '(MDlUpgrade.Single (mkCase %s %s %s %s %s %s))' % (
-        c_tree(case['tree']), c_args(case['args']), _OC[o['outcome']], c_tree(o['tree']), c_view(o.get('view')), kv.clist(copies))
+        c_tree(case['tree']), c_args(case['args']), _OC[o['outcome']], c_tree(_enc_tree(o['tree'], case['tree'], case['args'])),
+        c_view(o.get('view')), kv.clist(copies))
 
 
 # ------------------------------------------------------------------------------------------------ generator
